@@ -251,3 +251,11 @@ class SGen:
 
     def __init__(self, seq):
         self.seq = seq
+
+
+def view_args(b):
+    """arguments (array, offset, length) of an uninterpreted function over a bytes view;
+    the offset of an empty view is normalised to 0 (an empty bytes object has no position)"""
+    n = to_int(b.n)
+    off = to_int(b.off)
+    return (b.arr, z3.If(n == 0, z3.IntVal(0), off), n)
